@@ -184,6 +184,13 @@ func init() {
 			return nil
 		},
 		"vxRegister": extNop,
+		"vxWaitUntil": func(fr *frame, a []value) value {
+			i := fr.i
+			f := a[0]
+			i.yieldPoint("waituntil")
+			i.block(func() bool { return i.truth(call(i, nil, 0, f, nil), "waituntil") }, "vxWaitUntil")
+			return nil
+		},
 		"vxSymbolic": func(fr *frame, a []value) value { return true },
 		// vxHung reports whether the run would be hung now: no other thread
 		// can run and some thread other than the caller is blocked.
